@@ -185,6 +185,11 @@ fn build(c: &Case, values: &[Vec<u8>]) -> std::io::Result<Vec<u8>> {
 }
 
 pub fn judge(c: &Case, st: &mut Stats) -> Verdict {
+    // one case in eight is preceded by unrelated calls that fail on this thread (state left behind by a failed batch
+    // or a refused write must not leak into the next build)
+    if st.evals % 8 == 0 {
+        crate::bld::failing_calls_noise();
+    }
     st.eval();
     let entry = "v2::Builder -> bytes -> v2::Header::try_from";
     let fam = enc::family_code(&c.addr);
